@@ -137,13 +137,13 @@ theorem no_takeover_in_grace {s s' : State} {op : Op} (hI : Inv s) (h : exec s o
 
 /-- corollary: while the owner stays the same, the address records of an unexpired name change
     only on the controller's signature — or by the governance chain-id migration, which rewrites
-    chain-ids only (`migration_changes_only_chain_ids`).  (The only other case the model cannot
-    exclude is the completion of a sell order whose highest bidder is the owner, which hands the
-    name to the owner again and clears it.) -/
+    chain-ids only (`migration_changes_only_chain_ids`).  (A completed sell order always changes the
+    owner: the invariant records that the highest bidder of an open order is never the owner —
+    `MsgPurchaseOrder` refuses the owner's bid and the owner cannot change while the order is open.) -/
 theorem address_records_by_controller {s s' : State} {op : Op} (hI : Inv s) (h : exec s op = .ok s') {n : Name}
     {d d' : DymName} (hd : getName s n = some d) (hd' : getName s' n = some d') (ho : d'.owner = d.owner)
     (hc : d'.configs ≠ d.configs) (hexp : d.expired s.now = false) :
-    op.actor = d.controller ∨ op = .completeName d.owner n ∨ ∃ m, op = .migrateChainIds m := by
+    op.actor = d.controller ∨ ∃ m, op = .migrateChainIds m := by
   obtain ⟨d'', hd'', hch⟩ := name_change hI h hd
   rw [hd'] at hd''; injection hd'' with hd''; subst hd''
   rcases hch with rfl | hch
@@ -158,12 +158,24 @@ theorem address_records_by_controller {s s' : State} {op : Op} (hI : Inv s) (h :
     | updateDetails c cl cfgs contact he hcf => exact Or.inl rfl
     | purchase a offer so hso hsel hse he hna => exact absurd ho hna
     | complete a so b hso hsel hb he ha =>
+      exfalso
       simp only [cleared] at ho
-      rcases ha with rfl | rfl
-      · exact Or.inr (Or.inl rfl)
-      · rw [ho]; exact Or.inr (Or.inl rfl)
+      obtain ⟨d1, hd1, _, _, hbid⟩ := hI.so n so hso
+      have : d1 = d := by
+        have hd0 : s.ns.get n = some d := hd
+        rw [hd0] at hd1; exact (Option.some.inj hd1).symm
+      subst this
+      exact hbid b hb ho
     | accept pfx id m bo hg hna hn he hso hb => exact absurd ho hb
-    | migrate m he hnd => exact Or.inr (Or.inr ⟨m, rfl⟩)
+    | migrate m he hnd => exact Or.inr ⟨m, rfl⟩
+
+/-- in every reachable state the highest bidder of an open Dym-Name sell order is not the owner of
+    the name, the order was placed by the owner and ends before the name does -/
+theorem open_order_of_the_owner (p : Params) (t : Nat) (ops : List Op) (n : Name) (so : SellOrder)
+    (h : AMap.get (run (State.start p t) ops).nameSO n = some so) :
+    ∃ d, getName (run (State.start p t) ops) n = some d ∧ so.expireAt < d.expireAt ∧ so.seller = d.owner ∧
+      ∀ b, so.bid = some b → b.bidder ≠ d.owner :=
+  (reachable_inv p t ops).so n so h
 
 /-! ## alias_bijection -/
 
@@ -229,6 +241,20 @@ theorem deposit_exact {s s' : State} {a : Acct} {n : Name} {offer : Nat} {cont :
      | some (_, id) => ∃ bo, AMap.get s.bos id = some bo ∧ bo.buyer = a ∧ bo.offer < offer ∧
                balOf s' a + (offer - bo.offer) = balOf s a ∧ AMap.get s'.bos id = some { bo with offer := offer }) :=
   placeNameBO_ledger h
+
+/-- **deposit only the difference when raising an offer on an alias**: a new offer escrows exactly
+    the offer, a raise exactly `offer - previous offer`; nobody else's balance moves; the buyer is the
+    owner of the destination RollApp, which differs from the alias' RollApp -/
+theorem deposit_exact_alias {s s' : State} {a : Acct} {l : AliasId} {offer : Nat} {cont : Option (Bool × Nat)} {dst : Chain}
+    (h : placeAliasBO s a l offer cont dst = .ok s') :
+    isCreator s dst a = true ∧ AMap.get s.al.aliasTo l ≠ some dst ∧ s.p.minOffer ≤ offer ∧
+    (∀ x, x ≠ a → balOf s' x = balOf s x) ∧
+    (match cont with
+     | none => balOf s' a + offer = balOf s a ∧
+               AMap.get s'.bos (s.boCount + 1) = some ⟨true, l, dst, a, offer, 0⟩
+     | some (_, id) => ∃ bo, AMap.get s.bos id = some bo ∧ bo.buyer = a ∧ bo.isAlias = true ∧ bo.asset = l ∧ bo.offer < offer ∧
+               balOf s' a + (offer - bo.offer) = balOf s a ∧ AMap.get s'.bos id = some { bo with offer := offer }) :=
+  placeAliasBO_ledger h
 
 /-- **sale_exact (accepted buy order)** -/
 theorem sale_exact_accept {s s' : State} {a : Acct} {pfx : Bool} {id : Nat} {bo : BuyOrder}
